@@ -84,6 +84,8 @@ func (P) exec(line string) string {
 		return execTwo(parseScenario(f[2:]))
 	case "par":
 		return execPar(f[2:])
+	case "reuse":
+		return execReuse(parseScenario(f[2:]))
 	}
 	return "bad-op"
 }
@@ -174,6 +176,12 @@ func execTmpl(s *scenario) string {
 		return "bad-op"
 	}
 
+	if s.race {
+		if !s.pb {
+			return "bad-op"
+		}
+		src = &racingSource{TxSource: src, ci: ci}
+	}
 	policy := &mining.Policy{BlockMinWeight: s.minW, BlockMaxWeight: s.maxW, BlockPrioritySize: s.prioSize,
 		TxMinFreeFee: btcutil.Amount(s.minFree), BlockMinSize: s.minW / 4, BlockMaxSize: s.maxW / 4}
 	sigc := ci.sigc
@@ -181,7 +189,7 @@ func execTmpl(s *scenario) string {
 		sigc = nil
 	}
 	gen := mining.NewBlkTmplGenerator(policy, ci.params, src, ci.chain, ci.clock, sigc, ci.hashc)
-	if gen.TxSource() != src || gen.BestSnapshot().Hash != best.Hash || !mining.MinimumMedianTime(best).Equal(best.MedianTime.Add(time.Second)) {
+	if (!s.race && gen.TxSource() != src) || gen.BestSnapshot().Hash != best.Hash || !mining.MinimumMedianTime(best).Equal(best.MedianTime.Add(time.Second)) {
 		return "accessors"
 	}
 	var pay address.Address
@@ -189,6 +197,18 @@ func execTmpl(s *scenario) string {
 		pay = payAddress(ci.params)
 	}
 	tmpl, err := gen.NewBlockTemplate(pay)
+	if s.race {
+		// the tip moved forward between the generator's snapshot and its final check: an error is
+		// fine, and so is a template for the NEW tip; a template for the old tip is not
+		switch {
+		case err != nil:
+			return "race:admissible"
+		case tmpl.Block.Header.PrevBlock == ci.chain.BestSnapshot().Hash &&
+			ci.chain.CheckConnectBlockTemplate(btcutil.NewBlock(tmpl.Block)) == nil:
+			return "race:admissible"
+		}
+		return "race:stale-template"
+	}
 	if err != nil {
 		dbg("NewBlockTemplate: %v", err)
 		return "err"
